@@ -71,8 +71,10 @@ def exc_class(name):
     return {'error': 'StructError'}.get(name, name)
 
 
-def batch(msgs, default, ref_start=None):
-    """ref_start: where the Sender's 0..255 reference generator stands (as after that many messages sent before)"""
+def batch(msgs, default, ref_start=None, on_sending=None, settle=0.002):
+    """ref_start: where the Sender's 0..255 reference generator stands (as after that many messages sent before);
+    on_sending: coroutine function (message, pdu) awaited inside the application's sending hook (it may sleep or change
+    objects, as applications do); settle: how long the environment waits for the PDUs of a message"""
     from aiosmpplib.protocol import SubmitSm
     s = Sim(enquire_link_interval=1e6, socket_timeout=5.0, default_encoding=default)
     obs = []
@@ -88,6 +90,13 @@ def batch(msgs, default, ref_start=None):
             refs.append(v)
             return v
         rg.next_sequence = ref_next
+        if on_sending is not None:
+            inner_sending = s.hook.sending
+
+            async def sending(m_, p_, cid_):
+                await inner_sending(m_, p_, cid_)
+                await on_sending(m_, p_)
+            s.hook.sending = sending
 
         async def env():
             for m in msgs:
@@ -106,7 +115,7 @@ def batch(msgs, default, ref_start=None):
                 line = L.show_msg(m)
                 own_sar = any(p.tag in (0x020C, 0x020E, 0x020F) for p in (m.optional_params or []))
                 s.enqueue(m)
-                await asyncio.sleep(0.002)
+                await asyncio.sleep(settle)
                 written = [p for p in conn.pdus[n0:] if p[4:8] == b'\x00\x00\x00\x04']
                 errors = [e for e in s.events[e0:] if e[1] == 'send_error']
                 # then a plain message must go out
